@@ -253,7 +253,13 @@ static int vg_verdict(LHADecoderProgressCallback callback, void *callback_data)
 {
 	int v = nondet_int();
 	__CPROVER_assert(callback == progress_callback, "the library is given the tool's progress callback");
+#ifdef VG_MC_FULL
+	/* BOUND (VG_MC_FULL): the progress bar has at most 2 dots (the callback's own loop is proved for every length in
+	   maincli.test_file_crc / maincli.extract_archive and print.progress_callback) */
+	if (nondet_bool()) { unsigned vg_nb = nondet_uint(); __CPROVER_assume(vg_nb <= 2); callback(nondet_uint(), vg_nb, callback_data); }
+#else
 	if (nondet_bool()) callback(nondet_uint(), nondet_uint(), callback_data);
+#endif
 	vg_verdicts++;
 	if (v == 0) vg_fail_seen = 1;
 	return v;
@@ -481,7 +487,11 @@ void h_main(void)
 #ifdef VG_MC_LETTER
 	/* case split on the command letter (a constant of the code): one group per command */
 	__CPROVER_assume(argc >= 3);
-	if (nondet_bool()) vg_cmd[0] = VG_MC_LETTER; else { vg_cmd[0] = '-'; vg_cmd[1] = VG_MC_LETTER; }
+#ifdef VG_MC_DASH
+	vg_cmd[0] = '-'; vg_cmd[1] = VG_MC_LETTER;
+#else
+	vg_cmd[0] = VG_MC_LETTER;
+#endif
 #endif
 	r = main(argc, vg_argv);                /* error exits (exit(-1)) are checked in vg_exit and end the path there */
 
